@@ -48,19 +48,22 @@ def plain_lexable(p):
     return all(c.isalnum() or c == "_" for c in p)
 
 
-def display_ident_bare(p):
+RESERVED_FALLBACK = LEX_KEYWORDS | LIT_WORDS
+
+
+def display_ident_bare(p, reserved=RESERVED_FALLBACK):
     """parser/pr/ident.rs display_ident_part prints p without backticks"""
-    if not p:
+    if not p or p in reserved:
         return False
     c0 = p[0]
-    if not (c0.isascii() and c0.isalpha() or c0 in "_$"):
+    if not (c0.isascii() and c0.isalpha() or c0 == "_"):
         return False
     return all((c.isascii() and (c.isalpha() or c.isdigit())) or c == "_" for c in p[1:])
 
 
 def write_ident_bare(p, fmt_keywords):
     """codegen/ast.rs write_ident_part prints p without backticks"""
-    return bool(re.match(r"^(?:\*|[a-zA-Z_$][a-zA-Z0-9_$]*)$", p)) and p not in fmt_keywords
+    return bool(re.match(r"^(?:\*|[a-zA-Z_][a-zA-Z0-9_]*)$", p)) and p not in fmt_keywords
 
 
 def string_quote_edge(s):
@@ -72,31 +75,19 @@ def string_quote_edge(s):
 
 
 def features(pl, fmt_keywords=FMT_KEYWORDS_FALLBACK):
-    """input predicates: which known-defect classes the source AST contains"""
+    """input predicates: which OPEN known-defect classes the source AST contains.  (Classes of findings that were
+    repaired in /repo are deliberately absent: if such a defect comes back, nothing explains the failure.)"""
     fs = set()
 
+    def written_part(p):
+        # alias, parameter name, import alias, declared / argument / field names: write_ident_part
+        if write_ident_bare(p, fmt_keywords) and not plain_lexable(p):
+            fs.add("ident-star-bare" if p == "*" else "ident-other-bare")
+
     def ident_expr_parts(parts):
-        for i, p in enumerate(parts):
+        for p in parts:
             if display_ident_bare(p) and not plain_lexable(p):
-                if p in LEX_KEYWORDS or p in LIT_WORDS:
-                    fs.add("ident-keyword")
-                elif p.startswith("$"):
-                    fs.add("ident-dollar")
-                else:
-                    fs.add("ident-other-bare")
-
-    def written_part(p):  # alias, func param name, import alias, type ident path
-        if write_ident_bare(p, fmt_keywords) and not plain_lexable(p) and p != "*":
-            if p in LEX_KEYWORDS or p in LIT_WORDS:
-                fs.add("ident-keyword")
-            elif "$" in p:
-                fs.add("ident-dollar")
-            else:
                 fs.add("ident-other-bare")
-
-    def raw_name(p):
-        if not plain_lexable(p):
-            fs.add("raw-name")
 
     def kind_of(e):
         if isinstance(e, dict):
@@ -109,21 +100,18 @@ def features(pl, fmt_keywords=FMT_KEYWORDS_FALLBACK):
         return isinstance(e, dict) and isinstance(e.get("alias"), str)
 
     def restricted(e, allow_call):
-        """e stands where the parser accepts only `expr` (allow_call=False) or `func_call(expr)` (True), and the
-        formatter writes it at context strength 0"""
         k = kind_of(e)
         if k == "Func" or (k == "FuncCall" and not allow_call) or aliased(e):
             fs.add("restricted-position")
 
-    def visit(j, path, right_of_binary=False):
-        # explicit recursive walk so that "nearest enclosing Binary has us on its right" can be tracked
+    def visit(j, path):
         if isinstance(j, list):
             for x in j:
-                visit(x, path, right_of_binary)
+                visit(x, path)
             return
         if not isinstance(j, dict):
             return
-        if "alias" in j and isinstance(j.get("alias"), str):
+        if aliased(j):
             written_part(j["alias"])
         if isinstance(j.get("annotations"), list):
             for an in j["annotations"]:
@@ -137,8 +125,6 @@ def features(pl, fmt_keywords=FMT_KEYWORDS_FALLBACK):
                         fs.add("float-nonfinite")
                     elif isinstance(x, (int, float)) and float(x).is_integer() and float(x) < 9.3e18:
                         fs.add("float-integral")
-                if "String" in v and isinstance(v["String"], str) and string_quote_edge(v["String"]):
-                    fs.add("string-quote-edge")
             elif k == "Ident" and isinstance(v, list):
                 ident_expr_parts(v)
             elif k == "Range" and isinstance(v, dict):
@@ -148,10 +134,7 @@ def features(pl, fmt_keywords=FMT_KEYWORDS_FALLBACK):
                 if isinstance(st, dict) and "Param" in st:
                     fs.add("param-range")
                 for side in ("start", "end"):
-                    b = v.get(side)
-                    if isinstance(b, dict) and isinstance(b.get("Binary"), dict) and b["Binary"].get("op") == "Pow" and right_of_binary:
-                        fs.add("range-pow-leak")
-                    if aliased(b):
+                    if aliased(v.get(side)):
                         fs.add("restricted-position")
             elif k == "Binary" and isinstance(v, dict):
                 if aliased(v.get("left")) or aliased(v.get("right")):
@@ -159,19 +142,13 @@ def features(pl, fmt_keywords=FMT_KEYWORDS_FALLBACK):
             elif k == "Unary" and isinstance(v, dict):
                 if aliased(v.get("expr")):
                     fs.add("restricted-position")
-            elif k in ("SString", "FString") and isinstance(v, list):
-                for it in v:
-                    if isinstance(it, dict) and isinstance(it.get("Expr"), dict) and it["Expr"].get("format") is not None:
-                        fs.add("interp-format")
             elif k == "FuncCall" and isinstance(v, dict):
                 for nm, av in (v.get("named_args") or {}).items():
-                    raw_name(nm)
+                    written_part(nm)
                     if aliased(av):
                         fs.add("restricted-position")
                 if aliased(v.get("name")):
                     fs.add("restricted-position")
-                if len(v.get("named_args") or {}) >= 2:
-                    fs.add("named-args-order")
             elif k == "Func" and isinstance(v, dict):
                 for p in (v.get("params") or []) + (v.get("named_params") or []):
                     written_part(p.get("name", "a"))
@@ -183,36 +160,25 @@ def features(pl, fmt_keywords=FMT_KEYWORDS_FALLBACK):
                     if isinstance(c, dict):
                         restricted(c.get("condition"), True)
                         restricted(c.get("value"), True)
-            elif k == "VarDef" and isinstance(v, dict):
-                raw_name(v.get("name", "a"))
-            elif k == "TypeDef" and isinstance(v, dict):
-                raw_name(v.get("name", "a"))
-            elif k == "ModuleDef" and isinstance(v, dict):
-                raw_name(v.get("name", "a"))
+            elif k in ("VarDef", "TypeDef", "ModuleDef") and isinstance(v, dict):
+                written_part(v.get("name", "a"))
             elif k == "ImportDef" and isinstance(v, dict):
                 if v.get("alias"):
                     written_part(v["alias"])
                 for p in (v.get("name") or []):
                     written_part(p)
-            elif k == "Single" and isinstance(v, list) and len(v) == 2:
-                if isinstance(v[0], str):
-                    raw_name(v[0])
-                if v[1] is None:
-                    fs.add("type-tuple-field")
-            elif k == "Wildcard" and isinstance(v, dict):
-                fs.add("type-tuple-field")
+            elif k == "Single" and isinstance(v, list) and len(v) == 2 and isinstance(v[0], str):
+                written_part(v[0])
         for k, v in j.items():
-            if k == "Binary" and isinstance(v, dict):
-                visit(v.get("left"), path + (k,), False)
-                visit(v.get("right"), path + (k,), True)
-            elif k == "kind" and isinstance(v, dict) and ("Ident" in v) and isinstance(v["Ident"], list):
-                # type identifier: written with write_ident_part per part
+            if k == "kind" and isinstance(v, dict) and isinstance(v.get("Ident"), list):
                 for p in v["Ident"]:
                     written_part(p)
             elif k == "ImportDef":
                 pass
             else:
-                visit(v, path + (k,), right_of_binary)
+                visit(v, path + (k,))
+
+    visit(pl, ())
 
     # a doc comment is the only thing that separates two top-level pipelines; the formatter drops it
     def stmts_of(m):
@@ -231,9 +197,56 @@ def features(pl, fmt_keywords=FMT_KEYWORDS_FALLBACK):
                 if isinstance(md, dict):
                     stmts_of(md)
     stmts_of(pl)
-
-    visit(pl, ())
     return fs
+
+
+def constructs(pl):
+    """presence of the constructs of the REPAIRED findings (coverage statistics only)"""
+    cs = set()
+
+    def w(j, right=False):
+        if isinstance(j, list):
+            for x in j:
+                w(x, right)
+            return
+        if not isinstance(j, dict):
+            return
+        for k, v in j.items():
+            if k == "Literal" and isinstance(v, dict) and isinstance(v.get("String"), str) and string_quote_edge(v["String"]):
+                cs.add("string-quote-edge")
+            if k == "Ident" and isinstance(v, list):
+                if any(p in LEX_KEYWORDS or p in LIT_WORDS for p in v):
+                    cs.add("keyword-ident")
+                if any("$" in p for p in v):
+                    cs.add("dollar-ident")
+            if k == "alias" and isinstance(v, str) and (v in LEX_KEYWORDS or v in LIT_WORDS or "$" in v):
+                cs.add("keyword-or-dollar-alias")
+            if k == "Range" and isinstance(v, dict) and right:
+                for side in ("start", "end"):
+                    b = v.get(side)
+                    if isinstance(b, dict) and isinstance(b.get("Binary"), dict) and b["Binary"].get("op") == "Pow":
+                        cs.add("pow-bound-right-of-binary")
+            if k in ("SString", "FString") and isinstance(v, list) and any(isinstance(it, dict) and isinstance(it.get("Expr"), dict) and it["Expr"].get("format") is not None for it in v):
+                cs.add("interp-format")
+            if k == "FuncCall" and isinstance(v, dict):
+                if len(v.get("named_args") or {}) >= 2:
+                    cs.add("two-named-args")
+                if any(not plain_lexable(n) for n in (v.get("named_args") or {})):
+                    cs.add("quoted-name")
+            if k in ("VarDef", "TypeDef", "ModuleDef") and isinstance(v, dict) and not plain_lexable(v.get("name", "a")):
+                cs.add("quoted-name")
+            if k == "Wildcard" and isinstance(v, dict):
+                cs.add("type-wildcard")
+            if k == "Single" and isinstance(v, list) and len(v) == 2 and v[1] is None:
+                cs.add("type-star-field")
+        for k, v in j.items():
+            if k == "Binary" and isinstance(v, dict):
+                w(v.get("left"), False)
+                w(v.get("right"), True)
+            else:
+                w(v, right)
+    w(pl)
+    return cs
 
 
 # --- repairs: rewrite exactly one defect class in an AST, so that "equal after repair" proves the class explains the whole diff
@@ -269,7 +282,7 @@ def repair(j, cls):
     return fix(j)
 
 
-REPAIRABLE = ["float-integral", "float-nonfinite", "ident-keyword", "ident-dollar", "interp-format"]
+REPAIRABLE = ["float-integral", "float-nonfinite"]
 
 
 def explained_by_repairs(pl, pl2, feats):
